@@ -85,7 +85,7 @@ Proof.
   { induction cond_tags as [|t l IH]; [reflexivity|]. cbn [existsb]. rewrite (tagfree_specific s t H), IH. reflexivity. }
   rewrite E.
   assert (D : forallb (fun tg => negb (contains tg s)) drop_tags = true).
-  { assert (S : forallb starts_lt drop_tags = true) by (vm_compute; reflexivity). revert S. generalize drop_tags.
+  { assert (S : forallb starts3 drop_tags = true) by (vm_compute; reflexivity). revert S. generalize drop_tags.
     induction l as [|t l IH]; [reflexivity|]. cbn [forallb]. intros S. apply andb_prop in S as [S1 S2].
     rewrite (tagfree_contains t s S1 H), (IH S2). reflexivity. }
   rewrite D. reflexivity.
@@ -141,15 +141,15 @@ Section OneTag.
     intros Hl Hv. unfold fill. clear Ht. induction l as [|g r IH]; [split; reflexivity|].
     cbn [line_ok forallb map] in *. apply andb_prop in Hl as [Hg Hr]. destruct (IH Hr) as [I1 I2].
     fold (line_ok (map (fun g0 => if is_tagseg g0 then Lit v else g0) r)). rewrite I1, I2.
-    destruct g as [s|m dd]; cbn [is_tagseg seg_ok negb] in *; rewrite ?Hg, ?Hv; split; reflexivity.
+    destruct g as [s|m dd]; cbn [is_tagseg seg_ok negb] in *; rewrite ?Hg, ?(no_lg_lit_ok v Hv); split; reflexivity.
   Qed.
 End OneTag.
 
 Lemma lits_tagfree : forall l, line_ok l = true -> forallb (fun g => negb (is_tagseg g)) l = true -> tagfree (render_line l) = true.
 Proof.
-  intros l Hl Hn. unfold tagfree, render_line. rewrite no_char_app. cbn [nl_str no_char]. rewrite andb_true_r.
+  intros l Hl Hn. unfold tagfree, render_line. apply no3_app; [apply lit_ok_no3|reflexivity].
   induction l as [|g r IH]; [reflexivity|]. cbn [line_ok forallb] in *. apply andb_prop in Hl as [Hg Hr]. apply andb_prop in Hn as [N1 N2].
-  cbn [render_body]. rewrite no_char_app, (IH Hr N2), andb_true_r. destruct g; [|discriminate]. apply no_lg_no_lt. exact Hg.
+  cbn [render_body]. apply lit_ok_app; [|exact (IH Hr N2)]. destruct g; [exact Hg|discriminate].
 Qed.
 
 Lemma find_none_lits : forall l : uline, forallb (fun g => negb (is_tagseg g)) l = true -> List.find is_tagseg l = None.
